@@ -10,8 +10,9 @@
 Python holds no dictionary/scoping semantics: expected values come from TLC output or TLC judges the trace.
 """
 import json, os, subprocess, threading
-import vlib
+import vlib, ilparse
 
+_LOCK = threading.Lock()
 H = os.path.join(vlib.VERIF, "harness")
 ENV = dict(os.environ, ASAN_OPTIONS="detect_leaks=0")
 
@@ -101,56 +102,61 @@ def _dump_text(c, n, s, real, Hf):
     return " ".join(parts)
 
 
-def map_flow_a(ctx, exe, cfg, nkeys, capmax, workers=8, timeout=1200):
-    """TLC explores cfg; each VCASE (state) = history + all successor ops; replayed under every realisation."""
+def map_flow_a(ctx, exe, cfg, nkeys, capmax, workers=8, timeout=1500, per_state=2):
+    """TLC explores cfg; each VCASE (state) = history + all successor ops; every (state, op) is replayed into
+    map.c under `per_state` of the key realisations (rotating), in chunks."""
     reals = [Realisation(n, 1000 * (i + 1), nkeys, capmax) for i, n in enumerate(REALISATIONS)]
     head = []
     for r in reals:
         head += r.defs()
-    lines, expect = list(head), []
     r = ctx.tlc_must_pass("Map", cfg, workers=workers, timeout=timeout, heap="4g")
     if len(r.vcases) != r.distinct:
         raise vlib.MachineryError("expected one VCASE per distinct state: %d vs %d" % (len(r.vcases), r.distinct))
-    nstates = 0
-    for v in r.vcases:
-        c = json.loads(v)
-        nstates += 1
-        Hf, hist = c["H"], c["hist"]
-        for ri, real in enumerate(reals):
-            # rotate which realisation sees which state so that each state is replayed under 2 realisations
-            # in the quick tier and under all of them in the thorough tier
-            if ctx.quick and (nstates + ri) % 3 != 0:
-                continue
-            pre = _ops_text(hist, real, Hf)
-            preres = _res_text(hist)
-            if hist:
-                lines.append("R %d %s" % (c["init"], pre))
-                expect.append((preres + _dump_text(c["c"], c["n"], c["s"], real, Hf), c, None, real.name))
-            for s in c["succ"]:
-                lines.append("R %d %s %s" % (c["init"], pre, _ops_text([s], real, Hf)))
-                expect.append((preres + _res_text([s]) + _dump_text(s["c"], s["n"], s["s"], real, Hf), c, s, real.name))
-    rc, out, err = run_cmap(exe, "\n".join(lines) + "\n")
-    got = [g for g in out.splitlines() if not g.startswith("S ")]
-    if rc != 0 or len(got) != len(expect):
-        ctx.violation("map:crash", "map.c harness died rc=%s (sanitizer report / hang?): %s" % (rc, err[-800:]),
-                      {"lines": len(lines), "got": len(got)})
-        return
-    bad = 0
-    for (exp, c, s, rname), g, inp in zip(expect, got, lines[len(head):]):
-        nontriv = s is not None and len(c["hist"]) >= 2
-        ctx.count(inp, nontrivial=nontriv)
-        if g.strip() != exp.strip():
-            bad += 1
-            if bad <= 5:
-                op = s["o"] if s else "hist"
-                ctx.violation("map:%s:%s" % (op, rname.split("-")[0]),
-                              "map.c result/slot array differs from Map.tla",
-                              {"H": c["H"], "hist": c["hist"], "op": s, "realisation": rname, "input": inp, "expected": exp, "observed": g})
-    ctx.validated(nstates)
-    mid = len(expect) // 2
-    ctx.sample({"map history (real key ids)": lines[len(head) + mid], "realisation": expect[mid][3],
-                "expected '<results> | cap len (key val)*'": expect[mid][0]})
-    ctx.cov["map_flow_a"] = {"cfg": cfg, "states": nstates, "replays": len(expect), "mismatches": bad}
+    nstates = nrep = bad = 0
+    sample = None
+    CH = 4000
+    for lo in range(0, len(r.vcases), CH):
+        lines, expect = list(head), []
+        for v in r.vcases[lo:lo + CH]:
+            c = json.loads(v)
+            nstates += 1
+            Hf, hist = c["H"], c["hist"]
+            for j in range(per_state):
+                real = reals[(nstates + j * (len(reals) // per_state)) % len(reals)]
+                pre = _ops_text(hist, real, Hf)
+                preres = _res_text(hist)
+                if hist:
+                    lines.append("R %d %s" % (c["init"], pre))
+                    expect.append((preres + _dump_text(c["c"], c["n"], c["s"], real, Hf), c, None, real.name))
+                for su in c["succ"]:
+                    lines.append("R %d %s %s" % (c["init"], pre, _ops_text([su], real, Hf)))
+                    expect.append((preres + _res_text([su]) + _dump_text(su["c"], su["n"], su["s"], real, Hf), c, su, real.name))
+        rc, out, err = run_cmap(exe, "\n".join(lines) + "\n")
+        got = [g for g in out.splitlines() if not g.startswith("S ")]
+        if rc != 0 or len(got) != len(expect):
+            with _LOCK:
+                ctx.violation("map:crash", "map.c harness died rc=%s (sanitizer report / hang?): %s" % (rc, err[-800:]),
+                              {"lines": len(lines), "got": len(got)})
+            return
+        with _LOCK:
+            for (exp, c, su, rname), g, inp in zip(expect, got, lines[len(head):]):
+                ctx.count(inp, nontrivial=(su is not None and len(c["hist"]) >= 2))
+                if g.strip() != exp.strip():
+                    bad += 1
+                    if bad <= 5:
+                        ctx.violation("map:%s:%s" % (su["o"] if su else "hist", rname.split("-")[0]),
+                                      "map.c result/slot array differs from Map.tla",
+                                      {"H": c["H"], "hist": c["hist"], "op": su, "realisation": rname, "input": inp, "expected": exp, "observed": g})
+        nrep += len(expect)
+        if sample is None and expect:
+            mid = len(expect) // 2
+            sample = {"map history (real key ids)": lines[len(head) + mid], "realisation": expect[mid][3],
+                      "expected '<results> | cap len (key val)*'": expect[mid][0]}
+    with _LOCK:
+        ctx.validated(nstates)
+        if sample:
+            ctx.sample(sample)
+        ctx.cov["map_flow_a"] = {"cfg": cfg, "states": nstates, "replays": nrep, "mismatches": bad, "realisations": REALISATIONS}
 
 
 # ------------------------------------------------------------------------------------------------
@@ -171,29 +177,32 @@ def _rand_history(rng, nops, nkeys, growth, reset_p):
 
 
 def map_flow_b(ctx, exe, plans):
-    """plans: list of (name, initcap, nkeys, nops, keydefs(list of cmap lines), growth, reset_p)"""
-    total_ev = 0
+    """plans: list of (name, initcap, nkeys, nops, keydefs(list of cmap lines), growth, reset_p).  All histories go
+    into one ndjson file (an `init` event starts a new table) judged by one Trace_Map run."""
+    trace = ctx.path("map_hist.ndjson")
+    names = []
     for name, initcap, nkeys, nops, keydefs, growth, reset_p in plans:
-        trace = ctx.path("map_%s.ndjson" % name)
         ops = _rand_history(ctx.rng, nops, nkeys, growth, reset_p)
         rc, out, err = run_cmap(exe, "\n".join(keydefs) + "\nL %s %d %s\n" % (trace, initcap, " ".join(ops)))
         if rc != 0 or "L ok" not in out:
-            ctx.violation("map:crash:history:" + name, "map.c harness died on a long history rc=%s: %s" % (rc, err[-800:]), {"plan": name})
-            continue
-        nev = sum(1 for _ in open(trace))
-        r = ctx.tlc("Trace_Map", "MC_Trace_Map.cfg", workers=1, env={"TRACE": trace}, timeout=1500, heap="4g")
-        ctx.count("hist:" + name + ":" + str(ctx.seed), nontrivial=True, n=nev)
-        total_ev += nev
+            with _LOCK:
+                ctx.violation("map:crash:history:" + name, "map.c harness died on a long history rc=%s: %s" % (rc, err[-800:]), {"plan": name})
+            return
+        names.append(name)
+    nev = sum(1 for _ in open(trace))
+    r = ctx.tlc("Trace_Map", "MC_Trace_Map.cfg", workers=1, env={"TRACE": trace}, timeout=2400, heap="4g")
+    with _LOCK:
+        ctx.count("hist:" + ",".join(names) + ":" + str(ctx.seed), nontrivial=True, n=nev)
         if not r.ok:
             keep = os.path.join(vlib.WORK, "replays", "C16")
             os.makedirs(keep, exist_ok=True)
-            dst = os.path.join(keep, "map_%s_%d.ndjson" % (name, ctx.seed))
+            dst = os.path.join(keep, "map_hist_%d.ndjson" % ctx.seed)
             with open(dst, "w") as f:
                 f.write(open(trace).read())
-            ctx.violation("map:history:" + name, "recorded map.c history rejected by Trace_Map.tla after %d events" % (r.distinct - 1),
-                          {"plan": name, "trace": dst, "tlc": r.out[-1500:]})
+            ctx.violation("map:history", "recorded map.c history rejected by Trace_Map.tla at event %d" % r.distinct,
+                          {"plans": names, "trace": dst, "tlc": r.out[-1500:]})
         else:
-            ctx.validated(1)
+            ctx.validated(len(plans))
     # canary: the same machinery must reject a history with one corrupted result
     trace = ctx.path("map_canary.ndjson")
     rc, out, err = run_cmap(exe, "S 0 61 0 0\nS 1 62 0 0\nL %s 4 p0,1 p1,2 g0 g1 f g0\n" % trace)
@@ -203,7 +212,8 @@ def map_flow_b(ctx, exe, plans):
     r = ctx.tlc("Trace_Map", "MC_Trace_Map.cfg", workers=1, env={"TRACE": trace}, timeout=300)
     if r.ok:
         raise vlib.MachineryError("Trace_Map accepted a corrupted history: the trace binding is vacuous")
-    ctx.cov["map_flow_b"] = {"histories": len(plans), "events": total_ev}
+    with _LOCK:
+        ctx.cov["map_flow_b"] = {"histories": names, "events": nev}
 
 
 def map_plans(ctx):
@@ -234,24 +244,554 @@ def map_plans(ctx):
     return plans
 
 
-def run(ctx):
-    ctx.cov["rule"] = ("Map: TLC enumerates every reachable table of Map.tla for every monotone hash function into the bucket set "
-                       "(4 keys, capacities 4->8) and every operation from it; each (state, op) is replayed into map.c under "
-                       "several key realisations; non-trivial = history of >= 2 ops followed by an op. "
-                       "Histories: random 3*10^4..10^5-op histories with engineered collisions judged by Trace_Map.tla.")
-    exe = build_cmap(ctx)
-    results = {}
 
-    def design():
-        results["full"] = ctx.tlc_must_pass("Map", "MC_Map_full.cfg", workers=6, timeout=1200)
-    th = threading.Thread(target=design)
-    th.start()
-    map_flow_a(ctx, exe, "MC_Map_quick.cfg" if ctx.quick else "MC_Map_thorough.cfg", 4, 8, workers=6)
-    map_flow_b(ctx, exe, map_plans(ctx))
-    th.join()
-    if "full" not in results:
-        raise vlib.MachineryError("design-level model check MC_Map_full did not pass")
+# ------------------------------------------------------------------------------------------------
+# String-literal pool (Pool.tla -> translation units -> IL)
+
+
+def _lit_c(u, variant):
+    pf = {1: ["", "u8"], 2: ["u"], 4: ["L", "U"]}[u["w"]]
+    pf = pf[variant % len(pf)]
+    if not u["els"]:
+        return pf + '""'
+    out = []
+    for e in u["els"]:       # one adjacent piece per element: a hex escape never swallows the next character
+        if 32 < e < 127 and chr(e) not in '"\\?':
+            out.append('%s"%s"' % (pf, chr(e)))
+        else:
+            out.append('%s"\\x%x"' % (pf, e))
+    return " ".join(out)
+
+
+def pool_unit(case, variant):
+    return "".join("const void *p%d = %s;\n" % (i, _lit_c(u, variant + i)) for i, u in enumerate(case["uses"]))
+
+
+def pool_judge(ctx, case, src, rc, out, err):
+    """case: VCASE of Pool.tla.  Returns None or (key, what, detail)."""
+    if rc != 0:
+        return ("pool:compile", "unit of string literals not compiled rc=%s: %s" % (rc, err[-300:]), {})
+    try:
+        mod = ilparse.parse(out)
+    except ilparse.ILSyntaxError as ex:
+        raise vlib.MachineryError("IL of a pool unit does not parse: %s" % ex)
+    data = ilparse.data_by_name(mod)
+    syms, fails = [], []
+    for i, u in enumerate(case["uses"]):
+        d = data.get("p%d" % i)
+        if d is None:
+            return ("pool:missing", "no data for p%d" % i, {})
+        img, rel = ilparse.data_image(d)
+        if len(rel) != 1 or rel[0][0] != 0:
+            return ("pool:shape", "p%d is not a single address" % i, {"items": d["items"]})
+        sym, off = rel[0][2], rel[0][3]
+        obj = data.get(sym)
+        if obj is None:
+            return ("pool:dangling", "p%d points at undefined %s" % (i, sym), {})
+        oimg, orel = ilparse.data_image(obj)
+        syms.append(sym)
+        want = u["bytes"]
+        if oimg[off:off + len(want)] != want:
+            fails.append((i, "content", {"literal": _lit_c(u, 0), "required_bytes": want, "object": sym, "object_bytes": oimg[:64]}))
+        elif (obj["align"] % u["w"]) != 0 or off % u["w"] != 0:
+            fails.append((i, "align", {"literal": _lit_c(u, 0), "element_width": u["w"], "object": sym, "object_align": obj["align"]}))
+    first = {}
+    pattern = []
+    for i, sname in enumerate(syms):
+        first.setdefault(sname, i + 1)
+        pattern.append(first[sname])
+    case["_pattern"] = pattern
+    if not fails:
+        return None
+    i, cls, det = fails[0]
+    det["observed_sharing"] = pattern
+    det["model_shipped"] = case["objShipped"]
+    if pattern == case["objShipped"] and cls == "content":
+        key = "pool:content:Dev_PoolKeyInElements"
+    elif pattern == case["objNaive"] and cls == "align":
+        key = "pool:align:Dev_PoolKeyIgnoresWidth"
+    else:
+        key = "pool:%s:unexplained" % cls
+    return (key, "string literal #%d does not read its own image at the address it evaluates to (%s)" % (i, cls), det)
+
+
+def pool_check(ctx, objdir):
+    r = ctx.tlc_must_pass("Pool", "MC_Pool_quick.cfg", workers=2, timeout=600)
+    cases = [json.loads(v) for v in r.vcases]
+    if not ctx.quick:
+        r2 = ctx.tlc_must_pass("Pool", "MC_Pool_sim.cfg", workers=2, timeout=600, simulate=1500, depth=8)
+        cases += [json.loads(v) for v in r2.vcases]
+    for cfg in ("MC_Pool_dev.cfg", "MC_Pool_naive.cfg"):      # vacuity guards: both deviations must be visible to TLC
+        rr = ctx.tlc("Pool", cfg, workers=1, timeout=300)
+        if rr.ok:
+            raise vlib.MachineryError("%s expected to be rejected" % cfg)
+
+    def one(ic):
+        i, c = ic
+        src = pool_unit(c, i)
+        rc, out, err = vlib.cproc(objdir, src)
+        return pool_judge(ctx, c, src, rc, out, err), src
+    res = vlib.pmap(one, list(enumerate(cases)), workers=12)
+    stats = {"units": len(cases), "served": 0, "pattern_shipped": 0, "pattern_fixed": 0, "pattern_other": 0, "not_served": 0}
+    for c, (v, src) in zip(cases, res):
+        nontriv = len(set(c["objShipped"])) < len(c["objShipped"]) or len(set(c["objFixed"])) < len(c["objFixed"])
+        with _LOCK:
+            ctx.count("pool:" + src, nontrivial=nontriv)
+        pat = c.get("_pattern")
+        if pat == c["objShipped"]:
+            stats["pattern_shipped"] += 1
+        elif pat == c["objFixed"]:
+            stats["pattern_fixed"] += 1
+        else:
+            stats["pattern_other"] += 1
+        if v is None:
+            stats["served"] += 1
+            continue
+        stats["not_served"] += 1
+        key, what, det = v
+        det["unit"] = src
+        with _LOCK:
+            ctx.violation(key, what, det)
+    with _LOCK:
+        ctx.validated(len(cases))
+        ctx.cov["pool"] = stats
+        ctx.sample({"pool unit": pool_unit(cases[len(cases) // 3], len(cases) // 3), "model_shipped_sharing": cases[len(cases) // 3]["objShipped"],
+                    "required": "every p_i addresses storage beginning with the literal's image, aligned for its element type"})
+
+
+
+# ------------------------------------------------------------------------------------------------
+# Scoping programs (CScope.tla -> C -> IL).  Rendering only: which entity a use denotes comes from TLC
+# (item["id"]); the renderer gives every (entity id, copy) a unique number U and every use an expression
+# whose constant value is the U of the entity the compiler resolved.
+KEYWORDS = set("auto break case char const continue default do double else enum extern float for goto if inline int long "
+               "register restrict return short signed sizeof static struct switch typedef union unsigned void volatile while "
+               "mark main asm typeof alignas alignof bool true false nullptr constexpr thread_local static_assert".split())
+
+
+class ScopeRender:
+    def __init__(self, case, namefn, copies=1, use_copies=None, audit=False):
+        self.prog, self.ent = case["prog"], case["ent"]
+        self.nm = namefn
+        self.copies = copies
+        self.use_copies = set(range(copies)) if use_copies is None else set(use_copies)
+        self.audit = audit
+        self.stride = len(self.ent) + 1
+        self.expect = {}       # chk name -> expected value
+        self.gotoexp = {}      # goto marker -> expected label marker
+        self.nuses = 0
+
+    def U(self, eid, c):
+        return 11 + c * self.stride + eid
+
+    def expr(self, it, c):
+        n, k = self.nm(it["name"], c), it["kind"]
+        if it.get("form") == "call":
+            return "%s()" % n
+        return {"obj": "sizeof(%s)", "typedef": "sizeof(%s)", "param": "sizeof(*%s)", "enum": "%s", "macro": "%s",
+                "struct": "sizeof(struct %s)", "union": "sizeof(union %s)"}[k] % n
+
+    def render(self):
+        out = ["void mark(int);"]
+        stack = ["file"]
+        plist = None
+        pending_goto = []      # (marker, name, copy) of the current function
+        C = range(self.copies)
+        for K, it in enumerate(self.prog):
+            op = it["op"]
+            top = stack[-1]
+            if op == "open":
+                how = it["how"]
+                if how == "func":
+                    self._params = []
+                    self._fn = K
+                    pending_goto = []
+                elif how == "block":
+                    out.append("{")
+                elif how == "proto":
+                    plist = []
+                elif how == "for":
+                    self._forK = K
+                stack.append(how)
+            elif op == "body":
+                out.append("void fn_%d(%s) {" % (self._fn, ", ".join(self._params) if self._params else "void"))
+                self._params = None
+            elif op == "close":
+                how = it["how"]
+                if stack[-1] != how:
+                    raise vlib.MachineryError("renderer: close %s but top is %s" % (how, stack[-1]))
+                stack.pop()
+                if how in ("block", "forbody"):
+                    out.append("}")
+                elif how == "func":
+                    lab = {x["name"]: x["id"] for x in it["labels"]}
+                    for g, n, c in pending_goto:
+                        self.gotoexp[g] = self.U(lab[n], c)
+                    out.append("}")
+                elif how == "proto":
+                    out.append("void chkproto_%d(%s);" % (K, ", ".join(plist) if plist else "void"))
+                    plist = None
+            elif op in ("decl", "fwd", "complete"):
+                for c in C:
+                    n, u = self.nm(it["name"], c), self.U(it["id"], c)
+                    k = it["kind"]
+                    if op == "fwd":
+                        out.append("%s %s;" % (k, n))
+                    elif k in ("struct", "union"):
+                        t = "%s %s { char m[%d]; }" % (k, n, u)
+                        if top == "proto":
+                            plist.append("%s *chkq_%d_%d" % (t, K, c))
+                        else:
+                            out.append(t + ";")
+                    elif k == "param":
+                        t = "char (*%s)[%d]" % (n, u)
+                        if top == "proto":
+                            plist.append(t)
+                        else:
+                            self._params.append(t)
+                    elif k == "enum":
+                        if top == "proto":
+                            plist.append("enum { %s = %d } chke_%d_%d" % (n, u, K, c))
+                        else:
+                            out.append("enum { %s = %d };" % (n, u))
+                    elif k == "typedef":
+                        out.append("typedef char %s[%d];" % (n, u))
+                    elif k == "obj":
+                        if top == "for":
+                            if c == 0:
+                                self._fordecl = []
+                            self._fordecl.append("%s[%d]" % (n, u))
+                        else:
+                            out.append("char %s[%d];" % (n, u))
+                if it["kind"] == "obj" and top == "for":
+                    out.append("for (char %s, *chkf_%d = 0; chkf_%d; ) {" % (", ".join(self._fordecl), K, K))
+            elif op == "use":
+                for c in C:
+                    if c not in self.use_copies:
+                        continue
+                    e, u = self.expr(it, c), self.U(it["id"], c)
+                    self.nuses += 1
+                    if top == "proto":
+                        plist.append("char (*chku_%d_%d)[(%s) == %d ? 1 : -1]" % (K, c, e, u))
+                        continue
+                    name = "chk_%d_%d" % (K, c)
+                    self.expect[name] = u
+                    out.append("%sint %s = %s;" % ("" if top == "file" else "static ", name, e))
+                    if self.audit:
+                        out.append('_Static_assert((%s) == %d, "%s");' % (e, u, name))
+                    n = self.nm(it["name"], c)
+                    if it["kind"] == "typedef" and it.get("form") != "call":
+                        out.append("%s chkv_%d_%d;" % (n, K, c))            # typedef name in declaration position
+                    elif it["kind"] == "obj" and top != "file":
+                        out.append("%s[0];" % n)                              # object name starting an expression statement
+            elif op == "define":
+                for c in C:
+                    out.append("#define %s%s %d" % (self.nm(it["name"], c), "()" if it["kind"] == "fmacro" else "", self.U(it["id"], c)))
+            elif op == "undef":
+                for c in C:
+                    out.append("#undef %s" % self.nm(it["name"], c))
+            elif op == "label":
+                for c in C:
+                    out.append("%s: mark(%d);" % (self.nm(it["name"], c), self.U(it["id"], c)))
+            elif op == "goto":
+                for c in C:
+                    if c not in self.use_copies:
+                        continue
+                    g = self.U(it["id"], c)
+                    pending_goto.append((g, it["name"], c))
+                    self.nuses += 1
+                    out.append("mark(%d); goto %s;" % (g, self.nm(it["name"], c)))
+            else:
+                raise vlib.MachineryError("renderer: unknown item %r" % it)
+        while len(stack) > 1:
+            how = stack.pop()
+            if how in ("block", "forbody"):
+                out.append("}")
+            elif how == "proto":
+                out.append("void chkproto_end(%s);" % (", ".join(plist) if plist else "void"))
+            elif how == "func":
+                raise vlib.MachineryError("renderer: program ends inside a function")
+        return "\n".join(out) + "\n"
+
+
+def scope_observe(out):
+    """IL -> ({chk name: value}, {goto marker: label marker or None})"""
+    mod = ilparse.parse(out)
+    vals = {}
+    for d in mod["data"]:
+        nm = d["name"]
+        if nm.startswith(".Lchk_"):
+            nm = nm[2:nm.rindex(".")]
+        if nm.startswith("chk_") and len(d["items"]) == 1 and d["items"][0]["k"] == "num":
+            vals[nm] = d["items"][0]["vals"][0]
+    jumps = {}
+    for f in mod["funcs"]:
+        first = {}
+        for b in f["blocks"]:
+            for ins in b["insts"]:
+                if ins["op"] == "call" and ins.get("callee", {}).get("n") == "mark":
+                    first.setdefault(b["label"], ins["cargs"][0]["val"]["v"])
+                    break
+        for b in f["blocks"]:
+            marks = [ins["cargs"][0]["val"]["v"] for ins in b["insts"] if ins["op"] == "call" and ins.get("callee", {}).get("n") == "mark"]
+            if marks and b["jump"] and b["jump"]["k"] == "jmp":
+                jumps[marks[-1]] = first.get(b["jump"]["targets"][0])
+    return vals, jumps
+
+
+def scope_judge(rend, rc, out, err):
+    """Returns list of (key, what, detail)."""
+    if rc != 0:
+        return [("scope:compile", "valid scoping program rejected / crashed rc=%s: %s" % (rc, err[-300:]), {})]
+    try:
+        vals, jumps = scope_observe(out)
+    except ilparse.ILSyntaxError as ex:
+        raise vlib.MachineryError("IL of a scope unit does not parse: %s" % ex)
+    bad = []
+    for name, u in rend.expect.items():
+        if vals.get(name) != u:
+            K = int(name.split("_")[1])
+            it = rend.prog[K]
+            bad.append(("scope:%s:%s" % (it["ns"], it["kind"]), "use %s resolved to the wrong entity" % name,
+                        {"item": it, "expected_value": u, "observed_value": vals.get(name)}))
+    for g, u in rend.gotoexp.items():
+        if jumps.get(g) != u:
+            bad.append(("scope:label", "goto (marker %d) does not jump to the function's label of that name" % g,
+                        {"expected_label_marker": u, "observed": jumps.get(g)}))
+    return bad
+
+
+_NAMECACHE = {}
+
+
+def collide_names(exe, count, mask, target, stem):
+    """identifiers whose REAL hash (map.c, through cmap) agrees in the low bits: one probe chain in every scope table"""
+    key = (count, mask, target, stem)
+    if key not in _NAMECACHE:
+        rc, out, err = run_cmap(exe, "".join("S %d %s %x %x\n" % (i, ("%s%d_" % (stem, i)).encode().hex(), mask, target) for i in range(count)))
+        names = [bytes.fromhex(l.split()[2]).decode() for l in out.splitlines() if l.startswith("S ")]
+        if rc != 0 or len(names) != count:
+            raise vlib.MachineryError("name search failed: %s" % err[-300:])
+        _NAMECACHE[key] = names
+    return _NAMECACHE[key]
+
+
+def gcc_audit(ctx, src, tag):
+    path = ctx.path("audit_%s.c" % tag)
+    with open(path, "w") as f:
+        f.write(src)
+    rc, out, err = vlib.run(["gcc", "-std=c11", "-fsyntax-only", "-w", path], timeout=60)
+    if rc != 0:
+        raise vlib.MachineryError("SPEC-AUDIT: gcc rejects a program CScope.tla considers valid with these resolutions:\n%s\n%s"
+                                  % (err.decode()[-1500:], src[:3000]))
+
+
+def scope_programs(ctx, objdir, exe, cases, label, copies=1, use_copies=None, names=None, audit_n=0, workers=12):
+    def mk(ic):
+        i, c = ic
+        if names is None:
+            pool = collide_names(exe, 64, 0x3ff, (37 * i) & 0x3ff if i % 2 else 0x3ff, "n")
+        else:
+            pool = names
+        nn = max([it["name"] for it in c["prog"] if "name" in it] + [1])
+
+        if len(pool) < copies * nn or len(set(pool[:copies * nn])) != copies * nn:
+            raise vlib.MachineryError("name pool too small / not distinct for %d copies of %d names" % (copies, nn))
+
+        def namefn(n, k):
+            return pool[k * nn + (n - 1)]
+        rend = ScopeRender(c, namefn, copies, use_copies)
+        src = rend.render()
+        if i < audit_n:
+            gcc_audit(ctx, ScopeRender(c, namefn, copies, use_copies, audit=True).render(), "%s_%d" % (label, i))
+        rc, out, err = vlib.cproc(objdir, src, timeout=300)
+        return rend, src, scope_judge(rend, rc, out, err)
+    res = vlib.pmap(mk, list(enumerate(cases)), workers=workers)
+    nuse = 0
+    for rend, src, bad in res:
+        nuse += rend.nuses
+        with _LOCK:
+            ctx.count("scope:" + vlib.sha(src), nontrivial=rend.nuses > 0, n=max(1, rend.nuses))
+            for key, what, det in bad[:3]:
+                det["program"] = src if len(src) < 20000 else src[:20000] + "..."
+                ctx.violation(key, what, det)
+    with _LOCK:
+        ctx.validated(len(cases))
+        ctx.cov.setdefault("scope", {})[label] = {"programs": len(cases), "uses_checked": nuse, "copies": copies}
+    return res
+
+
+# ------------------------------------------------------------------------------------------------
+# Flow B for scope.c: H8 events -> Trace_Scope.tla
+def _scope_events(trace_path, out):
+    smap, imap = {}, {"(nil)": 0}
+
+    def S(p):
+        if p not in smap:
+            smap[p] = 0 if not smap else max(smap.values()) + 1        # the first scope ever mentioned is the file scope
+        return smap[p]
+    out.append({"e": "Reset"})
+    n = 0
+    for line in open(trace_path):
+        try:
+            ev = json.loads(line)
+        except ValueError:
+            continue
+        k = ev.get("e")
+        if k == "open" and "p" in ev:
+            pp = S(ev["p"])
+            smap[ev["s"]] = max(smap.values()) + 1
+            out.append({"e": "open", "s": smap[ev["s"]], "p": pp})
+        elif k == "close" and "s" in ev:
+            out.append({"e": "close", "s": S(ev["s"])})
+            smap.pop(ev["s"], None)
+        elif k in ("put", "get") and "ns" in ev:
+            if ev["id"] not in imap:
+                imap[ev["id"]] = len(imap)
+            x = {"e": k, "ns": ev["ns"], "s": S(ev["s"]), "name": ev["name"], "id": imap[ev["id"]]}
+            if k == "get":
+                x["rec"] = ev["rec"]
+            out.append(x)
+        else:
+            continue
+        n += 1
+    return n
+
+
+def scope_flow_b(ctx, hooks, units):
+    """units: list of (tag, path or None, source or None).  Every unit is compiled by the hooks build with the H8
+    trace on; all executions are concatenated and judged by one Trace_Scope run."""
+    def one(iu):
+        i, (tag, path, src) = iu
+        tr = ctx.path("h8_%d.ndjson" % i)
+        rc, out, err = vlib.cproc(hooks, src, path=path, trace=tr, timeout=120)
+        return tr if os.path.exists(tr) else None
+    traces = vlib.pmap(one, list(enumerate(units)), workers=8)
+    evs, nunits = [], 0
+    for tr in traces:
+        if tr:
+            if _scope_events(tr, evs) > 0:
+                nunits += 1
+            os.remove(tr)
+    if nunits < len(units) // 2:
+        raise vlib.MachineryError("H8 hook produced events for only %d of %d units" % (nunits, len(units)))
+    allp = ctx.path("h8_all.ndjson")
+    with open(allp, "w") as f:
+        f.write("\n".join(json.dumps(e) for e in evs) + "\n")
+    r = ctx.tlc("Trace_Scope", "MC_Trace_Scope.cfg", workers=1, env={"TRACE": allp}, timeout=1500, heap="4g")
+    with _LOCK:
+        ctx.count("h8:%d" % len(evs), nontrivial=True, n=len(evs))
+        if not r.ok:
+            k = max(0, r.distinct - 1)
+            ctx.violation("scope:trace", "H8 event %d of the real compiler is not a behaviour of Scope.tla (lookup returned something other "
+                          "than the innermost visible binding, or scope discipline broken)" % k,
+                          {"events_around": evs[max(0, k - 6):k + 2], "tlc": r.out[-1200:]})
+        else:
+            ctx.validated(nunits)
+        ctx.cov["scope_flow_b"] = {"units": nunits, "events": len(evs)}
+    # canary: a lookup result changed to another declaration must be rejected
+    gi = [i for i, e in enumerate(evs) if e["e"] == "get" and e["id"] > 1]
+    if gi:
+        cut = evs[:gi[len(gi) // 2] + 1]
+        cut[-1] = dict(cut[-1], id=cut[-1]["id"] - 1)
+        cp = ctx.path("h8_canary.ndjson")
+        with open(cp, "w") as f:
+            f.write("\n".join(json.dumps(e) for e in cut) + "\n")
+        r = ctx.tlc("Trace_Scope", "MC_Trace_Scope.cfg", workers=1, env={"TRACE": cp}, timeout=600, heap="4g")
+        if r.ok:
+            raise vlib.MachineryError("Trace_Scope accepted a corrupted lookup: the trace binding is vacuous")
+
+
+def scope_check(ctx, objdir, hooks, exe):
+    q = ctx.quick
+    ctx.tlc_must_pass("Scope", "MC_Scope_quick.cfg" if q else "MC_Scope_thorough.cfg", workers=4 if q else 10, timeout=2400)
+    # systematic short programs
+    r = ctx.tlc_must_pass("CScope", "MC_CScope_bfs_quick.cfg" if q else "MC_CScope_bfs_thorough.cfg", workers=4, timeout=1200)
+    bfs = [json.loads(v) for v in r.vcases]
+    scope_programs(ctx, objdir, exe, bfs, "bfs", audit_n=40 if q else 400)
+    # random programs
+    r = ctx.tlc_must_pass("CScope", "MC_CScope_sim.cfg", workers=4, simulate=60 if q else 500, depth=140, timeout=1200)
+    sim = [json.loads(v) for v in r.vcases]
+    scope_programs(ctx, objdir, exe, sim, "sim", audit_n=60 if q else 600)
+    # 200-deep nesting
+    r = ctx.tlc_must_pass("CScope", "MC_CScope_deep.cfg", workers=2, simulate=1 if q else 4, depth=8000, timeout=1200)
+    deep = [json.loads(v) for v in r.vcases]
+    for c in deep:
+        d = m = 0
+        for it in c["prog"]:
+            d += (it["op"] == "open") - (it["op"] == "close")
+            m = max(m, d)
+        if m < 200:
+            raise vlib.MachineryError("deep generator reached only depth %d" % m)
+    scope_programs(ctx, objdir, exe, deep, "deep200", audit_n=len(deep))
+    scope_programs(ctx, objdir, exe, deep[:1], "deep200x40", copies=40, names=collide_names(exe, 160, 0x1f, 0x1f, "d"))
+    # large units: a pattern program instantiated in 12 500 disjointly renamed, interleaved copies = 50 000 identifiers;
+    # all names agree in the low 8 hash bits (real hash of map.c)
+    r = ctx.tlc_must_pass("CScope", "MC_CScope_pat.cfg", workers=2, simulate=2 if q else 8, depth=120, timeout=600)
+    pat = [json.loads(v) for v in r.vcases]
+    pat.sort(key=lambda c: -sum(1 for it in c["prog"] if it["op"] in ("use", "goto")))
+    names = collide_names(exe, 50000, 0xff, 0x5a, "q")
+    scope_programs(ctx, objdir, exe, pat[:2 if q else 8], "big50k", copies=12500, use_copies=range(0, 12500, 50 if q else 5), names=names, workers=4)
+    # flow B
+    import glob
+    units = [("test:" + os.path.basename(f), f, None) for f in sorted(glob.glob(os.path.join(vlib.REPO, "test", "*.c")))]
+    pool = collide_names(exe, 64, 0x3ff, 0x3ff, "n")
+    for i, c in enumerate(sim[:40 if q else 400] + deep[:1]):
+        nn = max([it["name"] for it in c["prog"] if "name" in it] + [1])
+        units.append(("gen:%d" % i, None, ScopeRender(c, lambda n, k, nn=nn: pool[k * nn + n - 1]).render()))
+    scope_flow_b(ctx, hooks, units)
+
+
+def _spawn(fn, errs, *a, **kw):
+    def w():
+        try:
+            fn(*a, **kw)
+        except BaseException as ex:      # noqa
+            errs.append(ex)
+    t = threading.Thread(target=w)
+    t.start()
+    return t
+
+
+def run(ctx):
+    ctx.cov["rule"] = (
+        "Map: TLC enumerates every reachable table of Map.tla for every monotone hash function into the bucket set (4 keys, "
+        "capacities 4->8) and every operation from it; each (state, op) is replayed into map.c under rotating key realisations "
+        "(real FNV low bits = H / forged full-hash collisions / long / binary / empty keys); non-trivial = history of >= 2 ops "
+        "followed by an op.  Histories: random op histories with engineered collisions (counted per event) judged by Trace_Map.tla. "
+        "Pool: every ordered pair (thorough: + random 6-tuples) of literals from Pool.tla, one translation unit each; non-trivial = "
+        "some model predicts sharing.  Scope: CScope.tla programs (exhaustive short, random, 200-deep, 50 000-identifier scaled "
+        "copies), counted per checked use; H8 traces counted per event.")
+    exe = build_cmap(ctx)
+    objdir = vlib.build("plain")
+    hooks = vlib.build("hooks")
+    errs = []
+    q = ctx.quick
+    ths = [
+        _spawn(map_flow_a, errs, ctx, exe, "MC_Map_quick.cfg", 4, 8, workers=4, per_state=2 if q else 6),
+        _spawn(map_flow_b, errs, ctx, exe, map_plans(ctx)),
+        _spawn(pool_check, errs, ctx, objdir),
+        _spawn(scope_check, errs, ctx, objdir, hooks, exe),
+    ]
+    for t in ths:
+        t.join()
+    if errs:
+        raise errs[0]
     # the capacity-2 hazard must be *found* by TLC (keeps Inv_FreeSlot honest: it is not a tautology)
     r = ctx.tlc("Map", "MC_Map_cap2.cfg", workers=2, timeout=300)
     if r.ok:
         raise vlib.MachineryError("MC_Map_cap2 expected to violate Inv_FreeSlot (vacuity guard)")
+    if not q:
+        ths = [
+            _spawn(map_flow_a, errs, ctx, exe, "MC_Map_thorough.cfg", 4, 8, workers=8, per_state=2),
+            _spawn(lambda: ctx.tlc_must_pass("Map", "MC_Map_hist.cfg", workers=6, timeout=2400, heap="4g"), errs),
+        ]
+        for t in ths:
+            t.join()
+        if errs:
+            raise errs[0]
+        # vacuity: every action of the models taken
+        for spec, cfg, kw in (("Map", "MC_Map_quick.cfg", {}), ("Scope", "MC_Scope_quick.cfg", {}),
+                              ("CScope", "MC_CScope_bfs_quick.cfg", {})):
+            r = ctx.tlc_must_pass(spec, cfg, workers=6, coverage=True, timeout=1200, collect="VCASE ", on_line=lambda x: None, **kw)
+            ctx.check_coverage(r)
